@@ -29,6 +29,9 @@ type C10ServerCase struct {
 	SameSeg bool        `json:"same_seg"` // in the same segment as STARTTLS / in a segment of its own before the handshake
 	// SlowAbort: the backend needs 20 virtual seconds to return from a delivery whose reader failed (a rollback)
 	SlowAbort bool `json:"slow_abort,omitempty"`
+	// Paced: ReadTimeout 60 s, no WriteTimeout, and the client lets 25 virtual seconds pass before every send: never
+	// idle for a whole ReadTimeout, but the session inside TLS lasts many times that long
+	Paced bool `json:"paced,omitempty"`
 }
 
 // c10Probes: what is tried inside the TLS session (names from Alphabet).
@@ -48,6 +51,10 @@ func evalC10Server(c C10ServerCase) (*h.Finding, string) {
 	if c.SlowAbort {
 		opts.Backend = func(be *h.Backend) { be.SlowAbort = 20 * time.Second }
 		opts.Patience = 30 * time.Second
+	}
+	if c.Paced {
+		opts.Cfg = func(cfg *h.Config) { cfg.ReadTO = 60 * time.Second }
+		opts.Pace = 25 * time.Second // a DATA command and its message are two sends under ONE deadline: 50 s < 60 s
 	}
 	if c.Inject != "" {
 		if c.SameSeg {
@@ -463,7 +470,7 @@ func C10(tier string) int {
 	injects := []string{"", "MAIL FROM:<okinject@x.example>\r\n", "RCPT TO:<okinject@x.example>\r\n", "EHLO evil.example\r\nMAIL FROM:<okinject@x.example>\r\nRCPT TO:<okinject@y.example>\r\n", "RSET\r\nNOOP\r\n", "BDAT 5 LAST\r\ninject",
 		// no line break at all, just under the line limit: not even the line COUNTER may cross into the TLS session
 		strings.Repeat("i", 1985)}
-	run.Rule = fmt.Sprintf("SERVER: phase 1 - the C03 breadth-first search (alphabet without STARTTLS) collects one shortest history for EVERY reachable pre-STARTTLS state (greeted, authenticated, mid-transaction, mid-BDAT, after errors ...) of %d configuration(s); phase 2 - for every such state x injected plaintext %q x {same segment as STARTTLS, own segment before the ClientHello}: STARTTLS, real TLS handshake, then %d probe commands inside TLS (MAIL/RCPT/DATA/BDAT/AUTH before the new EHLO, EHLO, STARTTLS again, AUTH twice, a full transaction), every step compared with the reference model (old session: Logout and no Reset; nothing remembered; NewSession of the new EHLO sees TLS and the new name; AUTH state gone; envelope gone) plus: no injected command is ever executed once TLS is up; every state once more with a backend that needs 20 virtual seconds to abandon an open delivery (the old session is logged out only after its Data call has returned). CLIENT: entry points {NewClientStartTLS (in-memory), DialStartTLS, SendMail (loopback)} x scripted server behaviours {good, no STARTTLS keyword, EHLO refused -> HELO fallback, 454, 220 then garbage, 220 with an untrusted certificate, 220 with injected plaintext replies behind it then a good handshake, good handshake after which EHLO is refused and only HELO accepted, good handshake after which EHLO is answered by a bare 250 line, 220 followed in the same write by 1..1997 octets without a line end (not even their NUMBER may matter inside TLS: the upgrade works, or the client gives up before it says anything inside TLS), good handshake after which EHLO is answered 421/451/501/503/504/550/554 (no capability heard in plaintext may be reported or used)} x {with, without SASL client}: raw octets before the handshake contain only EHLO/HELO/STARTTLS/QUIT, the first line inside TLS is EHLO and ITS capability list is used, every bad case returns an error. states = pre-STARTTLS states; transitions = conversations.", len(cfgs), injects, len(c10Probes))
+	run.Rule = fmt.Sprintf("SERVER: phase 1 - the C03 breadth-first search (alphabet without STARTTLS) collects one shortest history for EVERY reachable pre-STARTTLS state (greeted, authenticated, mid-transaction, mid-BDAT, after errors ...) of %d configuration(s); phase 2 - for every such state x injected plaintext %q x {same segment as STARTTLS, own segment before the ClientHello}: STARTTLS, real TLS handshake, then %d probe commands inside TLS (MAIL/RCPT/DATA/BDAT/AUTH before the new EHLO, EHLO, STARTTLS again, AUTH twice, a full transaction), every step compared with the reference model (old session: Logout and no Reset; nothing remembered; NewSession of the new EHLO sees TLS and the new name; AUTH state gone; envelope gone) plus: no injected command is ever executed once TLS is up; every state once more with a backend that needs 20 virtual seconds to abandon an open delivery (the old session is logged out only after its Data call has returned), and once more with ReadTimeout 60 s and a client that lets 25 virtual seconds pass before every send (no deadline armed for the handshake may outlive it). CLIENT: entry points {NewClientStartTLS (in-memory), DialStartTLS, SendMail (loopback)} x scripted server behaviours {good, no STARTTLS keyword, EHLO refused -> HELO fallback, 454, 220 then garbage, 220 with an untrusted certificate, 220 with injected plaintext replies behind it then a good handshake, good handshake after which EHLO is refused and only HELO accepted, good handshake after which EHLO is answered by a bare 250 line, 220 followed in the same write by 1..1997 octets without a line end (not even their NUMBER may matter inside TLS: the upgrade works, or the client gives up before it says anything inside TLS), good handshake after which EHLO is answered 421/451/501/503/504/550/554 (no capability heard in plaintext may be reported or used)} x {with, without SASL client}: raw octets before the handshake contain only EHLO/HELO/STARTTLS/QUIT, the first line inside TLS is EHLO and ITS capability list is used, every bad case returns an error. states = pre-STARTTLS states; transitions = conversations.", len(cfgs), injects, len(c10Probes))
 	run.Assumptions = []string{"plaintext put on the wire between the 220 reply and the ClientHello makes the handshake fail (no TLS session exists); what the server does with a failed handshake is not judged", "loopback TCP is used for DialStartTLS/SendMail (they insist on dialling), outside synctest bubbles"}
 	t0 := time.Now()
 	for _, pc := range cfgs {
@@ -494,6 +501,8 @@ func C10(tier string) int {
 			}
 			// the same upgrade with a backend that takes 20 s to abandon an open delivery
 			cases = append(cases, C10ServerCase{PC: pc, Hist: hist, Names: histNames(alpha, hist), SameSeg: true, SlowAbort: true})
+			// and with a read timeout and a steady, slow client
+			cases = append(cases, C10ServerCase{PC: pc, Hist: hist, Names: histNames(alpha, hist), SameSeg: true, Paced: true})
 		}
 		h.ParallelFor(len(cases), func(i int) {
 			if run.Expired() {
